@@ -115,7 +115,7 @@ def run_case(case, ch, workdir):
                 clock.touch(p)
         rt.sleep(ch.pick([0.0, 5.0], "t0"))
         content_at_last_hash = {}
-        key_at_hash = {}
+        keys_cached = {}  # name -> every (mtime, ctime, size, inode) state at which a correct hash was cached
         nops = ch.randint(4, 10, "nops")
         focus = ch.pick(["a", "a", "b", "d"], "focus")
         for op in range(nops):
@@ -189,10 +189,9 @@ def run_case(case, ch, workdir):
                     probe("directory_hash")
                 content_at_last_hash[name] = (cur, clock.table[_rt.real_os_lstat(target).st_ino][0])
                 key_now = _statkey(clock, target)
-                same_state = key_at_hash.get(name) == key_now
-                key_at_hash.setdefault(name, key_now)
+                same_state = key_now in keys_cached.setdefault(name, set())
                 if got == ref:
-                    key_at_hash[name] = key_now
+                    keys_cached[name].add(key_now)
                 history.append(f"hash({name})")
                 if got != ref:
                     # identical (mtime, ctime, size, inode) as when the stale entry was cached:
@@ -218,9 +217,9 @@ def run_case(case, ch, workdir):
                     violation(res, "unexpected-error", "submit", f"{val}; history={history}")
                     break
                 if val.get("out") == cur:
-                    key_at_hash[name] = sk
+                    keys_cached.setdefault(name, set()).add(sk)
                 if val.get("out") != cur:
-                    violation(res, "stale-task-result", "rewrite-same-tick" if key_at_hash.get(name) == _statkey(clock, p) else _classify(history, name), f"task returned {val.get('out')!r} but the file now contains {cur!r} (resolution {res_ns} ns); history={history}")
+                    violation(res, "stale-task-result", "rewrite-same-tick" if _statkey(clock, p) in keys_cached.get(name, set()) else _classify(history, name), f"task returned {val.get('out')!r} but the file now contains {cur!r} (resolution {res_ns} ns); history={history}")
                     break
             hsh.update(repr(history[-1] if history else "").encode())
     finally:
